@@ -28,11 +28,15 @@ CHECKS = {
          "executable well-formedness checks that the model applies to its own output; BY CONSTRUCTION (no validator): no application a requested "
          "output depends on is dropped and nothing else is emitted (C01_no_application_is_dropped_by_construction), the plan of a returned model "
          "IS the ownership map unfolded (C01_plan_is_the_ownership_map_unfolded), hence C01_build_sem_by_construction: the semantic statement "
-         "with a decidable premise on the PROGRAM only (its specification-level plan is well-formed; evaluated on every generated program). Per-run CORRESPONDENCE: the real ModelProto equals the model's output name-for-name on generated programs "
+         "with a decidable premise on the PROGRAM only (its specification-level plan is well-formed; evaluated on every generated program), and "
+         "C01_build_sem_for_legal_programs: for programs meeting the decidable LEGALITY condition (acyclic, arguments local, no leak of a body "
+         "argument outside the graphs that declare it) the plan's well-formedness itself is proved from discovery / placement / def-use / "
+         "coverage facts - no output check, no evaluated plan. Per-run CORRESPONDENCE: the real ModelProto equals the model's output name-for-name on generated programs "
          "(If/Loop/Scan nesting, closures, sharing, leaks). Direct ORACLE: every built model executed by onnxruntime vs an "
          "independent numpy evaluator of the object graph.",
     note=TB + "Assumed: onnxruntime implements the abstract opsem (each operator's ONNX semantics). 'Legal programs always build' is "
-         "validated (correspondence + oracle: a legal generated program that is refused is reported), not proved.",
+         "validated (correspondence + oracle: a legal generated program that is refused is reported), not proved; the theorems are of the form "
+         "'whatever build returns ...'.",
     technique="Coq proof (linearisation theorem + verified plan validator) + exact model/implementation correspondence + ORT-vs-numpy oracle",
     ref="4 C01"),
  "C02": dict(
